@@ -275,7 +275,7 @@ func addDevShared(t *rapid.T, ix *Index, cfg GenConfig, m *Manifest, u Universe)
 			shape = 2 // same key
 		}
 	}
-	if shape == 0 && cfg.System == NPM && pct(t, "devshared.pinbelow") < 65 {
+	if shape == 0 && cfg.System == NPM && pct(t, "devshared.pinbelow") < 75 {
 		if cl, err := u.Client(); err == nil {
 			if ds := pinBelowShared(t, ix, cfg, m, &selector{cl: cl}); ds != nil {
 				return ds
@@ -511,7 +511,7 @@ func genDevSharedVulns(t *rapid.T, ix *Index, cfg GenConfig, out []OSV) []OSV {
 	}
 	var first OSVRange
 	n := 1
-	if pct(t, "dsv.second") < 60 {
+	if pct(t, "dsv.second") < 70 {
 		n = 2
 	}
 	for i := 0; i < n; i++ {
@@ -542,7 +542,7 @@ func genDevSharedVulns(t *rapid.T, ix *Index, cfg GenConfig, out []OSV) []OSV {
 			af.Ranges = []OSVRange{genRange(t, cfg, pX, lbl+".x")}
 		}
 		o.Affected = append(o.Affected, af)
-		two := 75
+		two := 80
 		if i > 0 {
 			two = 15
 		}
